@@ -116,14 +116,17 @@ def check_plain(case):
     # batched points: log-Jacobian per row
     if d >= 1 and not bad:
         X = torch.tensor(pts[: min(len(pts), 7)])
+        got = None
         try:
             got = tr.log_abs_det_jacobian(X, tr(X))
+        except Exception:
+            pass  # failing loudly on a batch is allowed
+        if got is not None:
             rows = [tr.log_abs_det_jacobian(X[i], tr(X[i])) for i in range(X.shape[0])]
             ref = torch.stack(rows)
             if tuple(got.shape) != tuple(ref.shape) or float((got - ref).abs().max()) > TOL_J:
-                bad.append(("log_jacobian_batched", f"batched {tuple(got.shape)} {got.tolist()[:3]} vs rows {ref.tolist()[:3]}"))
-        except Exception:
-            pass  # failing loudly on a batch is allowed
+                bad.append(("log_jacobian_batched", f"batched: shape {tuple(got.shape)} values "
+                                                    f"{got.reshape(-1).tolist()[:3]} vs rows {ref.reshape(-1).tolist()[:3]}"))
     return bad, n
 
 
@@ -228,6 +231,56 @@ def check_tree(case):
     return bad, len(pts)
 
 
+BIG = [  # (shape, n, dated?, kind, parameter value, root height above the oldest tip)
+    ("balanced", 256, False, "ratio", 0.5, 0.05),
+    ("balanced", 256, False, "ratio", 0.5, 40.0),
+    ("caterpillar", 200, True, "ratio", 0.999, 5000.0),
+    ("balanced", 256, True, "ratio", 0.05, 1.0),
+    ("balanced", 256, False, "shift", 1e-3, None),
+    ("caterpillar", 200, True, "shift", 40.0, None),
+]
+
+
+def check_tree_big(case):
+    """trees of a few hundred tips with heights far from 1: the determinant itself leaves the floating-point
+    range, its logarithm does not"""
+    import torch
+
+    shape, n, dated, kind, val, root = BIG[case["big"]]
+    labels = [f"t{i}" for i in range(n)]
+    top = en.shapes(shape, n, labels)
+    dates = [0.1 * (i % 7) if dated else 0.0 for i in range(n)]
+    leaf_h = tb.sampling_heights(dates)
+    bad = []
+    try:
+        if kind == "ratio":
+            pt = [val] * (n - 2) + [max(leaf_h) + root]
+            spec = tb.ratio_tree(top, labels, dates, pt[:-1], pt[-1:])
+        else:
+            pt = [val] * (n - 1)
+            spec = tb.shift_tree(top, labels, dates, pt)
+        dic = tt.load(spec)
+        model = dic["tree"]
+        tr = model.transform
+        x = torch.tensor(pt)
+        y = tr(x)
+        ref = autodiff_logdet(lambda z: tr(z), x, 1)
+        got = tr.log_abs_det_jacobian(x, y)
+        tol = TOL_J * max(1.0, abs(float(ref)))
+        if not abs(float(got) - float(ref)) <= tol:
+            bad.append(("log_jacobian", f"{shape} {n} tips {kind}: reported {float(got)!r} autodiff {float(ref)!r}"))
+        got2 = model()
+        if not abs(float(got2) - float(ref)) <= tol:
+            bad.append(("tree_model_call", f"{shape} {n} tips {kind}: tree_model() = {float(got2)!r}, autodiff "
+                                           f"{float(ref)!r}"))
+        xr = tr.inv(y)
+        if tuple(xr.shape) != tuple(x.shape) or float((xr - x).abs().max()) > 1e-8 * max(1.0, float(x.abs().max())):
+            bad.append(("inverse", f"{shape} {n} tips {kind}: max |inv(forward(x)) - x| = {float((xr - x).abs().max()):.3e}"))
+    except Exception as e:
+        bad.append(("evaluate", f"{type(e).__name__}: {str(e)[:200]}"))
+    return bad, 1
+
+
 def check_logdiff(case):
     import torch
 
@@ -274,6 +327,9 @@ def cases(tier):
             out.append({"part": "plain", "transform": name, "d": d})
     for d in (1, 2, 3):
         out.append({"part": "tril", "transform": "TrilExpDiagonalTransform", "d": d})
+    for k, b in enumerate(BIG):
+        out.append({"part": "tree_big", "big": k, "transform": "GeneralNodeHeightTransform" if b[3] == "ratio"
+                    else "DifferenceNodeHeightTransform"})
     ns = (3, 4, 5) if tier == "quick" else (3, 4, 5, 6)
     for n in ns:
         labels = [f"t{i}" for i in range(n)]
@@ -292,7 +348,8 @@ def cases(tier):
     return out
 
 
-FN = {"plain": check_plain, "tril": check_tril, "tree": check_tree, "logdiff": check_logdiff}
+FN = {"plain": check_plain, "tril": check_tril, "tree": check_tree, "logdiff": check_logdiff,
+      "tree_big": check_tree_big}
 
 
 def _work(chunk):
